@@ -7,6 +7,7 @@ use super::{
     tracker::{Type, TypeTracker},
     DecodeError,
 };
+use std::convert::TryFrom;
 use std::{error, fmt, result, slice};
 
 use crate::grammar::CoreInstructionTable as GInstTable;
@@ -344,14 +345,42 @@ impl<'c, 'd> Parser<'c, 'd> {
         let mut operands = vec![];
 
         let number = self.decoder.bit32()?;
-        if let Some(g) = GInstTable::lookup_opcode(number as u16) {
+        // Opcodes are 16-bit; operands whose layout depends on context cannot
+        // be nested in an OpSpecConstantOp.
+        let grammar = u16::try_from(number)
+            .ok()
+            .and_then(GInstTable::lookup_opcode)
+            .filter(|g| {
+                !g.operands.iter().any(|o| {
+                    matches!(
+                        o.kind,
+                        GOpKind::LiteralContextDependentNumber
+                            | GOpKind::PairLiteralIntegerIdRef
+                            | GOpKind::LiteralSpecConstantOpInteger
+                    )
+                })
+            });
+        if let Some(g) = grammar {
             // TODO: check whether this opcode is allowed here.
             operands.push(dr::Operand::LiteralSpecConstantOpInteger(g.opcode));
 
             // We need all parameters to this SpecConstantOp.
             for loperand in g.operands {
-                if loperand.kind != GOpKind::IdResultType && loperand.kind != GOpKind::IdResult {
-                    operands.append(&mut self.parse_operand(loperand.kind)?);
+                if loperand.kind == GOpKind::IdResultType || loperand.kind == GOpKind::IdResult {
+                    continue;
+                }
+                match loperand.quantifier {
+                    GOpCount::One => operands.append(&mut self.parse_operand(loperand.kind)?),
+                    GOpCount::ZeroOrOne => {
+                        if !self.decoder.limit_reached() {
+                            operands.append(&mut self.parse_operand(loperand.kind)?)
+                        }
+                    }
+                    GOpCount::ZeroOrMore => {
+                        while !self.decoder.limit_reached() {
+                            operands.append(&mut self.parse_operand(loperand.kind)?)
+                        }
+                    }
                 }
             }
             Ok(operands)
